@@ -270,3 +270,19 @@ def run(ctx):
             check_entry(ctx, fb, cfg, "rln::public::RLN::verify_rln_proof", True, True)
             n += 1
     ctx.floor("verification-entry-points", n, 5)
+    # R02-4 (shared with C11 R11-1..R11-3): the C entry points of verification hand the same bytes to the same-named method and write
+    # the verdict - true *and* false - to the caller's flag exactly on the Ok arm (a flag left untouched on `Ok(false)` would keep a
+    # previous `true`)
+    from . import c11
+    from ..main import Ctx as _Ctx
+    k = 0
+    for cfg in cfgs[:2]:
+        fb = ctx.fb(cfg)
+        for w in c11.wrappers(fb):
+            if w["name"] in ("verify", "verify_rln_proof", "verify_with_roots"):
+                sub = _Ctx(ctx.pid, ctx.tier)
+                c11.check_wrapper(sub, fb, w, cfg)
+                k += 1
+                for r in sub.results:
+                    (ctx.ok if r.status == "ok" else ctx.fail)("R02-4", r.instance, r.reason, r.loc)
+    ctx.floor("verification-ffi-wrappers", k, 5)
